@@ -573,7 +573,7 @@ func genKey(t *rapid.T, c *Case, dense bool, l string) dbh.Val {
 			}
 			s = string(b)
 		case k <= 7:
-			s = rapid.SampledFrom([]string{"", "a", "aa", "ab", "b", "\x01", "\xff", "a\x01", "あ", "zzzz"}).Draw(t, l)
+			s = rapid.SampledFrom([]string{"", "a", "aa", "ab", "b", "\x01", "\xff", "a\x01", "あ", "zzzz", " ", "a ", "a  ", " a", "ab ", "\t", "A", "Ab"}).Draw(t, l)
 		default:
 			n := rapid.IntRange(4, max).Draw(t, l+"n")
 			s = strings.Repeat("abc"[rapid.IntRange(0, 2).Draw(t, "c"):][:1], n-1) + "xyz"[rapid.IntRange(0, 2).Draw(t, "e"):][:1]
